@@ -110,12 +110,14 @@ PROPS = {
                  "call: verdict = grant rule of the statement, registry = reference set, distinct ids, one event per success. After every "
                  "data change the complete outbound trace of all peers must be exactly one notify per subscribed client feature with "
                  "payload = DataCopy. Non-trivial: >=2 peers subscribed to the changed feature at a data change. Distinct by "
-                 "(operation sequence with outcomes, final registry)."),
+                 "(operation sequence with outcomes, final registry)."
+                 " Free-running mix: three peers, each with a subscription request or delete for its own server feature at the same moment; every request takes effect and a data change on each server feature notifies exactly the peer whose subscription is in force."),
         "assumptions": ["special role is accepted on both sides of a subscription (as in the repository's NodeManagement fixture)",
                         "Generic feature types and client addresses naming a foreign device are not generated (DESIGN §4 C08 NA)",
                         "whether a remote write is accepted is observed from its result, not predicted (C03/C04 own the gate)"],
         "runs": [
             {"name": "subs", "run": "TestSubscriptions", "kind": "rapid", "checks": {Q: 8000, T: 400000}, "shards": {Q: 4, T: 16}, "steps": {Q: 20, T: 40}},
+            {"name": "mix", "run": "TestSubscriptionMixStress", "kind": "plain", "shards": {Q: 2, T: 16}, "env": {"VERIF_ROUNDS": {Q: 400, T: 12000}}},
         ],
     },
     "C09": {
